@@ -299,7 +299,19 @@ def gen_request_fields(r, pkg, twist=None):
             fields.append({"name": fname(), "type": "message", "type_name": P + ".Author", "repeated": True})
         else:
             fields.append({"name": fname(), "type": "enum", "type_name": P + ".Color"})
-    r.shuffle(fields)
+    # shuffle whole units (a single field, or a oneof with its members in declaration order)
+    units, seen_o = [], {}
+    for f in fields:
+        if f.get("oneof") and not f.get("optional"):
+            if f["oneof"] in seen_o:
+                seen_o[f["oneof"]].append(f)
+            else:
+                seen_o[f["oneof"]] = [f]
+                units.append(seen_o[f["oneof"]])
+        else:
+            units.append([f])
+    r.shuffle(units)
+    fields = [f for u in units for f in u]
     nested = []
     if twist == "required_plain_message":
         fields.append({"tw": True, "name": fname("plain_req"), "type": "message", "type_name": P + ".Plain", "required": True})
@@ -321,16 +333,7 @@ def gen_request_fields(r, pkg, twist=None):
         fields.append({"tw": True, "name": fname("client"), "type": "message", "type_name": P + ".Author", "required": True})
     elif twist == "required_wkt":
         fields.append({"tw": True, "name": fname("mask"), "type": "message", "type_name": ".google.protobuf.FieldMask", "required": True})
-    # real oneofs must be declared contiguously? protoc does not require it, but keep members together in order
-    grouped, seen = [], set()
-    for f in fields:
-        if f.get("oneof") and not f.get("optional"):
-            if f["oneof"] in seen:
-                continue
-            seen.add(f["oneof"])
-            grouped += [g for g in fields if g.get("oneof") == f["oneof"] and not g.get("optional")]
-        else:
-            grouped.append(f)
+    grouped = fields
     # proto3-optional fields get synthetic oneofs, which protoc puts after all real ones
     grouped = [g for g in grouped if not g.get("optional")] + [g for g in grouped if g.get("optional")]
     return grouped, nested
@@ -1076,7 +1079,7 @@ def run(ctx):
         if files:
             seg_texts += [c for n, c in files.items() if n.startswith(SDIR) and n.endswith(".py")][:4]
     # ---- fresh APIs
-    for a in range(ctx.n(7, 150)):
+    for a in range(ctx.n(22, 380)):
         spec = gen_api(r, a, twists=0.04)
         ctx.count("stream", "generated")
         files = run_api(ctx, r, spec, spec["label"])
